@@ -20,7 +20,10 @@
 #ifndef PAYLOAD
 #define PAYLOAD 0      // 0: void(uint32_t,uint32_t)   1: void(Pay) tracked copyable   2: void(const Pay&) tracked   3: void(const MPay&) tracked move-only
 #endif
-#define MAXP (KK + RA + 1)
+#ifndef INIT_MAX
+#define INIT_MAX 0      // > 0: start from an arbitrary quiescent state with up to INIT_MAX pending events and up to 2 recycled (free) slots
+#endif
+#define MAXP (KK + RA + 1 + INIT_MAX)
 #define MAXL 4         // listeners per key
 #define MAXH (2 + KK)
 
@@ -283,6 +286,15 @@ extern "C" void harness()
 		g->hs[g->nh] = g->q->appendListener(k, Cb(g->nextlid)); g->hkey[g->nh] = k; g->hid[g->nh] = g->nextlid; g->hlive[g->nh] = true; g->nh++;
 		m.lis[k][m.nl[k]++] = g->nextlid++;
 	}
+#if INIT_MAX > 0
+	{	// every quiescent state with n <= INIT_MAX pending events and f <= 2 free slots (payloads symbolic): a step from here is an
+		// inductive step for the queue -- the state's shape is determined by (n, f), only data varies
+		unsigned f = vf_choose(3), n0 = vf_choose(INIT_MAX + 1);
+		for(unsigned i = 0; i < f; i++) do_enqueue((int)(i & 1));
+		if(f) { int b0 = g->budget; g->budget = 0; do_process(); g->budget = b0; vf_assert(m.np == 0, 98); }
+		for(unsigned i = 0; i < n0; i++) do_enqueue((int)vf_choose(2));
+	}
+#endif
 	for(int step = 0; step < KK; step++) {
 		unsigned op = vf_choose(11 + (unsigned)g->nh);
 		if(op <= 1) {
@@ -347,6 +359,13 @@ extern "C" void harness()
 		vf_assert(g_live_pay == m.np, 94);            // exactly the pending events' arguments are alive
 		vf_assert(g_bad == 0, 95);
 #endif
+	}
+	{	// final drain: whatever is still pending comes out exactly once, in order, and the queue reports empty afterwards
+		g->budget = 0;
+		begin_batch(K_PROCESS, m.np);
+		bool r = g->q->process();
+		end_batch(r);
+		vf_assert(g->q->emptyQueue() && m.np == 0, 99);
 	}
 	for(int i = 0; i < MAXH; i++) g->hs[i] = Q::Handle();
 #ifdef HAVOC
